@@ -220,6 +220,19 @@ def run(ctx):
     if ub:
         c = [c for c in rem if c.body is ub]
         r5.check(bool(c) and 2 in {o.what for o in origins(ub, c[0].args[1], taint=True) if o.kind == "param"}, "unban-key", "unban() removes the address it was given", "unban() removes a different key")
+    # admin BAN / UNBAN <host> act on every server of that host: get_addresses_from_host, the only resolver behind both commands, collects every match of every
+    # shard - no first-match adaptor (find / find_map / position / take / nth / next outside a loop) stands between the address table and the result
+    gah = F.body("pgcat::pool::ConnectionPool::get_addresses_from_host")
+    gah_all = [gah] + [b_ for n_, b_ in F.bodies.items() if n_.startswith("pgcat::pool::ConnectionPool::get_addresses_from_host::")] if gah else []
+    if not gah_all:
+        r5.missing("ConnectionPool::get_addresses_from_host")
+    else:
+        FIRST = "re:(^|::)Iterator::(find|find_map|position|rposition|take|take_while|skip|skip_while|step_by|nth|last|min|max|min_by_key|max_by_key)$|slice::<impl \\[T\\]>::(first|last|get)$"
+        cut = [c for b_ in gah_all for c in b_.calls(FIRST)]
+        callers_ = sorted({c.body.name for c in F.all_calls("pgcat::pool::ConnectionPool::get_addresses_from_host")})
+        r5.check(not cut, "admin-ban-reaches-every-server-of-the-host", "get_addresses_from_host (callers: %s) collects every address of the host" % [x.split("::")[-2] for x in callers_],
+                 "get_addresses_from_host cuts its search short with %s: admin BAN / UNBAN <host> reach only the first server of that host in a shard - `UNBAN host` is accepted and the repaired replica stays banned for the whole ban_time "
+                 "when it is not the host's first entry, `BAN host` leaves the other replicas of the host in rotation" % sorted({c.name.split("::")[-1] for c in cut}), cut[0].where() if cut else "")
     # ---------------- R6 server waits are bounded
     r6 = ctx.rule("C07-R6", "the health check and every reply awaited for a client are under a timeout taken from the configuration", floor=2)
     if rh:
